@@ -378,3 +378,58 @@ def rerun(pid, path):
     same = out and list(parse_result(out[0])) == [x if not isinstance(x, list) else x for x in payload.get('native', [])]
     print('deviation recorded      :', payload.get('deviation'))
     return 1 if out and json.loads(json.dumps(parse_result(out[0]))) == payload.get('native') else 0
+
+
+# ----------------------------------------------------------------------------------------------- fallback confirmations
+# Used when a Kani harness that observes CALLS through recorder stubs fails: its counterexample cannot be replayed natively
+# (stubs are not applied in playback), so the property-level consequence is looked for natively on a fixed battery instead.
+def confirm_feeding(ctx, what='feeding'):
+    """one-shot ci == incremental (append one by one, then ci_mean), bit for bit; reordering moves the bounds by a few ulps at most"""
+    import struct, random
+    drv = Driver.get(ctx)
+    f32 = lambda v: struct.unpack('<f', struct.pack('<f', v))[0]
+    rnd = random.Random(12345)
+    base = [f32(100.0 + rnd.random() * 50.0) for _ in range(60000)]
+    orders = [base, sorted(base), sorted(base, reverse=True), base[::2] + base[1::2]]
+    res = []
+    for ty, data in (('f32', base), ('f64', [1e16, 1.0, 1.0, -1e16, 3.0, 1e-3] * 50)):
+        tok = ' '.join(bits(x) for x in data)
+        a = drv.run(['arith_ci %s 0 %s %s' % (ty, bits(0.95), tok), 'arith_ci_inc %s 0 %s %s' % (ty, bits(0.95), tok)])
+        if a[0] != a[1]:
+            path = save(ctx, 'feeding_oneshot_vs_incremental_' + ty, {'property': ctx.pid, 'what': what, 'native': a, 'deviation': 'one-shot ci and incremental accumulation of the same %d observations give different intervals' % len(data),
+                                                                       'commands': ['arith_ci %s two 0.95 <data>' % ty, 'arith_ci_inc %s two 0.95 <data>' % ty]})
+            return True, path, 'one-shot %s vs incremental %s' % (a[0], a[1])
+    outs = drv.run(['arith_ci f32 0 %s %s' % (bits(0.95), ' '.join(bits(x) for x in o)) for o in orders])
+    vals = [parse_result(o) for o in outs]
+    if all(v[0] == 'ok' for v in vals):
+        def ulps(a, b):
+            ia, ib = [struct.unpack('<i', struct.pack('<f', x))[0] for x in (a, b)]
+            return abs(ia - ib)
+        worst = max(ulps(v[2][j], vals[0][2][j]) for v in vals for j in (0, 1))
+        if worst > 8:
+            path = save(ctx, 'feeding_reordering', {'property': ctx.pid, 'what': what, 'native': outs, 'deviation': 'reordering 60000 f32 observations moves a bound by %d ulps (allowed: a few)' % worst})
+            return True, path, 'reordering moves the bounds by %d ulps' % worst
+    return False, None, 'one-shot and incremental agree and reordering stays within 8 ulps on the battery'
+
+
+def confirm_critical_value(ctx, what='critical value'):
+    ok, path, note = replay_arith(ctx, {}, what)
+    if ok:
+        return ok, path, note
+    return replay_unpaired(ctx, {}, what)
+
+
+def confirm_history(ctx, what='history independence'):
+    """the same call must give the same answer whatever was called before it in the same thread"""
+    drv = Driver.get(ctx)
+    L = bits(0.9)
+    seqs = [['wilson 400 120 0 ' + L, 'wilson 400 120 1 ' + L, 'wilson 400 120 2 ' + L], ['z_normal 400 120 0 ' + L, 'z_normal 400 120 2 ' + L],
+            ['qindices 100 %s 0 %s' % (bits(0.5), L), 'qindices 100 %s 1 %s' % (bits(0.5), L)], ['wilson 400 120 1 ' + L, 'wilson 400 120 0 ' + L]]
+    for seq in seqs:
+        together = drv.run(seq)
+        alone = [drv.run([c])[0] for c in seq]
+        if together != alone:
+            path = save(ctx, 'history_dependence', {'property': ctx.pid, 'what': what, 'commands': seq, 'native_in_sequence': together, 'native_each_in_a_fresh_process': alone,
+                                                    'deviation': 'the result of a call depends on the calls made before it'})
+            return True, path, 'in sequence %s, alone %s' % (together, alone)
+    return False, None, 'results do not depend on the call history on the battery'
